@@ -201,6 +201,27 @@ fn snell_at(cid: &str, crystal: &CrystalType, pol: PolarizationType, ct: f64, cp
   let setup = setup_of(crystal, ct, cp);
   let theta_e_deg = te * 180.0 / PI;
   let beam0 = Beam::new(pol, bphi * RAD, 0.1 * RAD, lambda * M, 100e-6 * M);
+  // replica of calc_internal_theta_from_external's optimisation from public API, with its evaluation table (tie to the
+  // Nelder-Mead model of coq/Model/NM1d.v): same cost closure, seeds, iteration budget, bounds and tolerance
+  let replica = {
+    let b = beam0.clone();
+    let st = setup.clone();
+    let snell_external = te.sin();
+    let phi = b.phi();
+    let curve = move |internal: f64| {
+      let direction = direction_from_polar(phi, internal * RAD);
+      let n = st.index_along(b.vacuum_wavelength(), direction, b.polarization());
+      (snell_external - (*n) * f64::sin(internal)).abs()
+    };
+    let (r, table) = crate::c04::nm_traced(curve, (te, te + 1.0), 100, 0.0, std::f64::consts::FRAC_PI_2, 1e-12);
+    let direct = guarded({ let b = beam0.clone(); let st = setup.clone(); move || *(Beam::calc_internal_theta_from_external(&b, te * RAD, &st) / RAD) });
+    json!({
+      "result": match &r { Ok(x) => json!({"ok": true, "x": fx(*x)}), Err(m) => json!({"ok": false, "panic": m}) },
+      "table": Value::Array(table.iter().map(|(x, c)| json!([fx(*x), fx(*c)])).collect()),
+      "g0": fx(te), "g1": fx(te + 1.0), "max_iter": 100, "min": fx(0.0), "max": fx(std::f64::consts::FRAC_PI_2), "tol": fx(1e-12),
+      "direct": direct.ok().map(fx),
+    })
+  };
   let st = setup.clone();
   let r = guarded(move || {
     let mut b = beam0;
@@ -216,7 +237,7 @@ fn snell_at(cid: &str, crystal: &CrystalType, pol: PolarizationType, ct: f64, cp
     Ok((back, ti, n, ind, d, phi, weff)) => emit(json!({
       "kind": "snell", "id": cid, "pol": pol_name(pol), "ct": fx(ct), "cp": fx(cp), "lambda": fx(lambda), "weff": fx(weff),
       "bphi": fx(bphi), "phi": fx(phi), "te": fx(te), "te_deg": fx(theta_e_deg), "back": fx(back), "ti": fx(ti), "n": fx(n),
-      "ind": fxs(&ind), "dir": fxs(&d), "gen": gen,
+      "ind": fxs(&ind), "dir": fxs(&d), "gen": gen, "replica": replica,
     })),
     Err(msg) => emit(json!({
       "kind": "snell", "id": cid, "pol": pol_name(pol), "ct": fx(ct), "cp": fx(cp), "lambda": fx(lambda),
